@@ -462,7 +462,7 @@ impl<'a> ExpressionEvaluator<'a> {
     /// table (unsigned (op) unsigned is BigUInt, every other integer pair is BigInt). The primitive
     /// operators panic on overflow in debug builds and wrap in release builds.
     /// `None` if an operand is not an integer or the operator is not arithmetic.
-    fn integer_arith(
+    pub(crate) fn integer_arith(
         left: &DataType,
         right: &DataType,
         op: BinaryOperator,
